@@ -419,7 +419,8 @@ fn gen_bop(rng: &mut Rng, r: &RefB, f32ok: bool, dist: &mut Dist) -> BOp {
 /// Oracle only (a 256 MiB list is not something to evaluate inside Coq).
 #[cfg(vbxq_aelys_lang_verif)]
 pub fn limits(max_alloc: i64, dist: &mut Dist) {
-    let mut vm = vmrun::new_vm(64 << 20);
+    // byte buffers count against max_heap_bytes since 0d876af: give the VM room for one MAX_ALLOC buffer (not two)
+    let mut vm = vmrun::new_vm((max_alloc as u64) + (max_alloc as u64) / 2);
     let (c, _, d) = vmrun::input(&mut vm, "needs std.bytes\n0", 1);
     if c != OK_VAL { println!("!HARNESS\tbytes prelude failed: {} {}", c, d); return; }
     let m = max_alloc;
@@ -427,6 +428,7 @@ pub fn limits(max_alloc: i64, dist: &mut Dist) {
     let null = i64::MIN;
     let steps: Vec<(String, Option<i64>)> = vec![
         (format!("bytes.alloc({})", m), Some(0)),
+        ("bytes.clone(0)".into(), None),                       // a second MAX_ALLOC buffer does not fit the heap limit
         ("bytes.size(0)".into(), Some(m)),
         (format!("bytes.write_u8(0, {}, 7)", m - 1), Some(null)),
         (format!("bytes.read_u8(0, {})", m - 1), Some(7)),
@@ -494,8 +496,38 @@ pub fn crossres(dist: &mut Dist) {
         ("bytes.free(1)", 'o', 0),
         ("bytes.free(1)", 'e', 0),
         ("tm.elapsed_us(0)", 'o', 0),
+        // one counter for manual slots (8 bytes each) and byte buffers (1 byte each); timers are not charged
+        ("#charge", '#', 0),
+        ("bytes.alloc(10)", '=', 1),
+        ("alloc(3)", '=', 0),
+        ("#charge", '#', 34),
+        ("bytes.clone(1)", '=', 2),
+        ("#charge", '#', 44),
+        ("bytes.clone(7)", 'e', 0),
+        ("#charge", '#', 44),
+        ("free(0)", 'o', 0),
+        ("#charge", '#', 20),
+        ("bytes.resize(1, 4)", 'o', 0),
+        ("#charge", '#', 14),
+        ("bytes.resize(1, 40)", 'o', 0),
+        ("#charge", '#', 50),
+        ("bytes.from_string(\"hello\")", '=', 3),
+        ("#charge", '#', 55),
+        ("bytes.free(1)", 'o', 0),
+        ("bytes.free(2)", 'o', 0),
+        ("bytes.free(3)", 'o', 0),
+        ("#charge", '#', 0),
     ];
     for (i, (src, want, n)) in steps.iter().enumerate() {
+        if *want == '#' {
+            let got = vm.manual_heap().bytes_allocated() as i64;
+            if got != *n {
+                println!("!ORACLE\tbytes-oracle:crossres:shared-counter\tbytes_allocated() = {}, live manual slots and byte buffers total {} bytes\tstep {} of: {}", got, n, i,
+                         steps[..=i].iter().map(|s| s.0).collect::<Vec<_>>().join("; "));
+                return;
+            }
+            continue;
+        }
         let (c, bits, detail) = vmrun::input(&mut vm, src, 1);
         dist.hit("crossres:steps");
         if c == E_COMPILE || c == PANIC { println!("!HARNESS\tinput `{}` -> class {}: {}", src, c, detail.replace('\n', " ")); return; }
@@ -535,7 +567,7 @@ pub fn main(seed: u64, hist: u64, maxlen: u64, replay: Option<String>, dist: &mu
             if c == PANIC {
                 // a panic inside the implementation is a failure of the property's "reported as an error", with this input
                 findings.push((i, format!("bytes-oracle:{}:panic", op_kind(&op)), format!("`{}` panicked: {}", text, detail.replace('\n', " ").replace('\t', " "))));
-            } else if c == E_COMPILE || (c != OK_VAL && c != E_TYPE) {
+            } else if c == E_COMPILE || (c != OK_VAL && c != E_TYPE && c != E_OOM) {
                 println!("!HARNESS\tinput `{}` (opt {}) -> class {}: {}", text, opt, c, detail.replace('\n', " ").replace('\t', " "));
             }
             let v = Value::from_raw(bits);
@@ -588,8 +620,16 @@ pub fn main(seed: u64, hist: u64, maxlen: u64, replay: Option<String>, dist: &mu
                 BOp::Write { w, sg, be, .. } => format!("write_{}{}{}", if *sg { "i" } else { "u" }, *w as u32 * 8, if *be { "_be" } else { "" }),
                 BOp::WriteF { w, be, .. } => format!("write_f{}{}", *w as u32 * 8, if *be { "_be" } else { "" }), _ => op_kind(&op).to_string() };
             dist.hit(&format!("outcome:{}:{}", detail_kind, if code == 9 { "err" } else { "ok" }));
+            // the counter the heap limit is checked against: one byte per byte of every live buffer (no manual slots here)
+            let charged = vm.manual_heap().bytes_allocated() as u64;
+            let want_charge: u64 = r.live.values().map(|d| d.len() as u64).sum();
+            if charged != want_charge {
+                findings.push((i, format!("bytes-oracle:accounting:after-{}-{}", op_kind(&op), if code == 9 { "error" } else { "ok" }),
+                               format!("after `{}`: bytes_allocated() = {}, live byte buffers total {} bytes", text, charged, want_charge)));
+            }
             obs.push(code as i128);
             obs.push(val);
+            obs.push(charged as i128);
             ops.push(op);
         }
         let has_f32 = ops.iter().any(|o| matches!(o, BOp::WriteF { w: 4, .. } | BOp::Read { w: 4, kind: 2, .. }));
